@@ -1,2 +1,79 @@
+/* jwk.* operations: lib/jwk.c */
 #include "hx.h"
-const op_t ops_jwk[] = { { NULL, NULL } };
+#include <jose/jwk.h>
+
+static json_t *
+op_prm(json_t *args)
+{
+    json_t *jwk = hx_arg(args, "jwk");
+    const char *op = hx_arg_str(args, "op");
+    bool req = hx_arg_bool(args, "req", false);
+    return json_pack("{s:b}", "r", jose_jwk_prm(NULL, jwk, req, op));
+}
+
+static json_t *
+op_pub(json_t *args)
+{
+    json_t *jwk = json_deep_copy(hx_arg(args, "jwk"));
+    bool ok = jose_jwk_pub(NULL, jwk);
+    json_t *res = json_object();
+    json_object_set_new(res, "ok", json_boolean(ok));
+    json_object_set_new(res, "jwk", jwk ? jwk : json_null());
+    /* second export of the result (idempotence is part of C06) */
+    if (ok) {
+        json_t *again = json_deep_copy(jwk);
+        bool ok2 = jose_jwk_pub(NULL, again);
+        json_object_set_new(res, "again_same", json_boolean(ok2 && json_equal(again, jwk)));
+        json_decref(again);
+    }
+    return res;
+}
+
+static json_t *
+op_eql(json_t *args)
+{
+    return json_pack("{s:b}", "r", jose_jwk_eql(NULL, hx_arg(args, "a"), hx_arg(args, "b")));
+}
+
+static json_t *
+op_thp(json_t *args)
+{
+    return hx_opt(jose_jwk_thp(NULL, hx_arg(args, "jwk"), hx_arg_str(args, "alg")));
+}
+
+static json_t *
+op_thp_buf(json_t *args)
+{
+    json_t *lj = json_object_get(args, "len");
+    json_t *res = json_object();
+    if (!json_is_integer(lj)) {
+        json_object_set_new(res, "ret", hx_size(jose_jwk_thp_buf(NULL, hx_arg(args, "jwk"),
+                                                                hx_arg_str(args, "alg"), NULL, 0)));
+    } else {
+        size_t len = (size_t) json_integer_value(lj);
+        uint8_t *raw = malloc(len + 2 * CANARY);
+        uint8_t *o = raw + CANARY;
+        size_t r;
+        bool ok = true;
+        memset(raw, CANARY_BYTE, len + 2 * CANARY);
+        r = jose_jwk_thp_buf(NULL, hx_arg(args, "jwk"), hx_arg_str(args, "alg"), o, len);
+        for (size_t i = 0; i < CANARY; i++)
+            if (raw[i] != CANARY_BYTE || o[len + i] != CANARY_BYTE)
+                ok = false;
+        json_object_set_new(res, "ret", hx_size(r));
+        json_object_set_new(res, "canary", json_boolean(ok));
+        if (r != SIZE_MAX && r <= len && len > 0)
+            json_object_set_new(res, "out", hx_hex(o, r));
+        free(raw);
+    }
+    return res;
+}
+
+const op_t ops_jwk[] = {
+    { "jwk.prm", op_prm },
+    { "jwk.pub", op_pub },
+    { "jwk.eql", op_eql },
+    { "jwk.thp", op_thp },
+    { "jwk.thp_buf", op_thp_buf },
+    { NULL, NULL }
+};
